@@ -24,7 +24,7 @@ if diff /tmp/confirm-baseline.sorted /tmp/confirm-$ID.fail >/dev/null; then TEST
 echo "tests with change: $TESTS"
 # 2. the demonstration with and without the change
 ( cd "$OUT/demo" && sh ./run.sh "$WT/_build/src/lib/libsofthsm2.so" > /tmp/confirm-$ID.with 2>&1 ); WITH=$?
-( cd "$OUT/demo" && sh ./run.sh /repo/_build/src/lib/libsofthsm2.so > /tmp/confirm-$ID.without 2>&1 ); WITHOUT=$?
+( cd "$OUT/demo" && sh ./run.sh ${WITHOUT_LIB:-/repo/_build/src/lib/libsofthsm2.so} > /tmp/confirm-$ID.without 2>&1 ); WITHOUT=$?
 echo "demo with change: exit $WITH ; without change: exit $WITHOUT"
 if [ "$TESTS" = same-as-baseline ] && [ $WITH -ne 0 ] && [ $WITHOUT -eq 0 ]; then
   mkdir -p /verif/seeded/$NAME
